@@ -71,7 +71,7 @@ def warm(real_t, dims=(2, 3), kernel_types=("cosine", "peskin")):
 # ------------------------------------------------------------------------------------------------
 
 POSITION_CLASSES = ["uniform", "centre", "face", "centre_ulp32", "centre_ulp64", "face_ulp32", "face_ulp64", "same_cell",
-                    "duplicate"]
+                    "duplicate", "edge_low", "edge_high"]  # edge_*: the first / last admissible half cell of an axis
 
 
 def marker_spec(dim, n):
@@ -122,6 +122,10 @@ def build_markers(spec, shape, dx):
                 for _ in range(abs(s["ulps"][c])):
                     v = np.nextafter(v, ft(np.inf if s["ulps"][c] > 0 else -np.inf))
                 x = float(v)
+            elif cls == "edge_low":
+                x = lo + 0.5 * dx * s["frac"][c]
+            elif cls == "edge_high":
+                x = hi - 0.5 * dx * s["frac"][c]
             elif cls == "same_cell":
                 if anchor is None:
                     x = face + s["frac"][c] * dx
